@@ -1,13 +1,13 @@
 #!/bin/bash
 # ingest_seed.sh <ID> <worktree>: verify an independently written breaking change and store it under /verif/seeded/<ID>/
 # - demo passes on the unchanged tree, fails with the patch; baseline suite still passes with the patch
-ID=$1; WT=${2:-/tmp/wt_$1}; DST=/verif/seeded/$ID
+ID=$1; WT=${2:-/tmp/wt_$1}; NAME=${3:-$ID}; DST=/verif/seeded/$NAME
 [ -s $WT/seeded_patch.diff ] || git -C $WT diff -- minecraft > $WT/seeded_patch.diff
 [ -s $WT/seeded_patch.diff ] || { echo "no patch in $WT"; exit 2; }
 S=$(mktemp -d /tmp/ingest_XXXX)
 cp -r /repo/minecraft /repo/tests $S/; cp /repo/setup.py /repo/README.rst /repo/requirements.txt $S/ 2>/dev/null
 cp $WT/demo.py $S/demo.py
-sed -i "s#/tmp/wt_$ID#$S#g" $S/demo.py
+sed -i "s#$WT#$S#g" $S/demo.py
 cd $S
 PYTHONPATH=$S timeout 600 /venv/bin/python demo.py >$S/demo_clean.log 2>&1; rc_clean=$?
 patch -p1 -s < $WT/seeded_patch.diff || { echo "patch does not apply"; rm -rf $S; exit 2; }
@@ -19,14 +19,14 @@ if [ $ok -eq 1 ]; then
   mkdir -p $DST
   cp $WT/seeded_patch.diff $DST/patch.diff; cp $WT/demo.py $DST/demo.py; [ -f $WT/NOTES.md ] && cp $WT/NOTES.md $DST/NOTES.md
   tail -3 $S/demo_patched.log > $DST/demo_patched_tail.txt
-  /venv/bin/python - "$ID" "$rc_clean" "$rc_patched" "$tests" <<'PY'
+  /venv/bin/python - "$ID" "$rc_clean" "$rc_patched" "$tests" "$NAME" <<'PY'
 import json, sys
-pid, rc0, rc1, tests = sys.argv[1:5]
+pid, rc0, rc1, tests, name = sys.argv[1:6]
 json.dump({"property": pid, "origin": "independent sub-agent given only the property text and a scratch worktree",
            "needs_to_manifest": "see NOTES.md",
            "verified": {"demo_on_unchanged_tree_rc": int(rc0), "demo_with_patch_rc": int(rc1), "baseline_with_patch": tests.strip(),
                         "how": "selftest/ingest_seed.sh: scratch copy of /repo, demo.py before and after `patch -p1`, pinned baseline suite on the patched copy"}},
-          open('/verif/seeded/%s/meta.json' % pid, 'w'), indent=1)
+          open('/verif/seeded/%s/meta.json' % name, 'w'), indent=1)
 PY
   echo "stored in $DST"
 else
